@@ -1,5 +1,5 @@
 (* C05 — executable model of typed value extraction.
-   Definitions only.  Parameters: the forest (children lists, parent indices), the regex oracle
+   Definitions only.  Inputs: the forest (children lists, parent indices), the regex oracle
    `mg` (per line: no match / matched but the requested group did not participate / group index
    out of range / the group's text, as an index into the case's string table) and the conversion
    oracle (result_type(text) as a value id or an exception).
